@@ -27,6 +27,7 @@ abbrev Table := AMap Nat Nat
 
 inductive Kind where
   | add | update | delete
+  | heartbeat          -- keep-alive: occupies a slot of the client channel, changes nothing on the standby
   deriving DecidableEq, Repr
 
 structure Msg where
@@ -42,10 +43,14 @@ def Msg.eff (m : Msg) : Option Nat :=
   | .delete => none
   | _ => some m.val
 
-/-- `handleSSEData` for one add/update/delete message, on one of the standby's two maps -/
+/-- does the message say anything about session `k`? -/
+def Msg.touches (m : Msg) (k : Nat) : Bool := m.kind != .heartbeat && m.key == k
+
+/-- `handleSSEData` for one add/update/delete/heartbeat message, on one of the standby's two maps -/
 def applyMsg (t : Table) (m : Msg) : Table :=
   match m.kind with
   | .delete => AMap.erase t m.key
+  | .heartbeat => t
   | _ => AMap.insert t m.key m.val
 
 /-- the loop `for i := range msg.Sessions { … PutSession }` -/
@@ -82,9 +87,9 @@ structure State where
   -- history variables
   snapSeq    : Nat := 0          -- the active's sequence number at the last full sync
   fullSynced : Bool := false     -- a full sync completed and the stream has not been lost since
-  gapLost    : Bool := false     -- since the last full sync a change made after it was broadcast to nobody
-  lostFull   : Bool := false     -- a change was dropped by a full channel/queue and is not yet flushed out
-  dropEpoch  : Bool := false     -- a change was dropped by the full client channel in this attachment
+  gapKeys    : List Nat := []    -- sessions of the changes made after the last full sync that were broadcast to nobody
+  fullKeys   : List Nat := []    -- sessions of the changes dropped by a full channel/queue and not yet flushed out
+  dropped    : List Msg := []    -- changes dropped by the full client channel in this attachment
   bcast      : List Msg := []    -- changes broadcast while this attachment existed (dropped ones included)
   sent       : List Msg := []    -- … those that entered the client channel
   applied    : List Msg := []    -- … those the standby has applied
@@ -115,7 +120,7 @@ def push (s : State) (kind : Kind) (k v : Nat) : State × Obs :=
   if s.pending.length < s.cfg.capP then
     ({ s1 with pending := s.pending ++ [m] }, .ok)
   else
-    ({ s1 with lostFull := true }, .full)
+    ({ s1 with fullKeys := s.fullKeys ++ [k] }, .full)
 
 /-- one iteration of `broadcastLoop` -/
 def broadcast (s : State) : State × Obs :=
@@ -124,24 +129,44 @@ def broadcast (s : State) : State × Obs :=
   | m :: rest =>
     match s.client with
     | none =>
-      ({ s with pending := rest, gapLost := s.gapLost || decide (s.snapSeq < m.seq) }, .lost m.seq)
+      ({ s with pending := rest, gapKeys := if s.snapSeq < m.seq then s.gapKeys ++ [m.key] else s.gapKeys }, .lost m.seq)
     | some ch =>
       if ch.length < s.cfg.capC then
         ({ s with pending := rest, client := some (ch ++ [m]), bcast := s.bcast ++ [m], sent := s.sent ++ [m] },
          .sent m.seq)
       else
-        ({ s with pending := rest, bcast := s.bcast ++ [m], lostFull := true, dropEpoch := true }, .dropped m.seq)
+        ({ s with pending := rest, bcast := s.bcast ++ [m], fullKeys := s.fullKeys ++ [m.key], dropped := s.dropped ++ [m] },
+         .dropped m.seq)
 
+/-- a snapshot of the active's table is applied on the standby (`performFullSync`, or a `full` message in the
+    stream).  A session stops counting as "lost to a full channel" once a snapshot is taken with nothing about
+    it in flight any more. -/
 def fullSync (s : State) : State × Obs :=
   let r := fullSyncApply s.store s.table
-  let idle := (s.client.getD []).isEmpty && s.pending.isEmpty
-  ({ s with store := r.1, received := r.2, snapSeq := s.seq, fullSynced := true, gapLost := false,
-            lostFull := s.lostFull && !idle }, .synced r.1)
+  ({ s with store := r.1, received := r.2, snapSeq := s.seq, fullSynced := true, gapKeys := [],
+            fullKeys := s.fullKeys.filter fun k => s.inflight.any (·.touches k) }, .synced r.1)
+
+/-- a `full` message (the active's GET payload) handed to `handleSSEData` while the stream is attached -/
+def streamFull (s : State) : State × Obs :=
+  match s.client with
+  | none => (s, .noclient)
+  | some _ => fullSync s
+
+/-- `broadcastLoop`'s heartbeat ticker: a keep-alive is broadcast like a change (and silently dropped when the
+    client channel is full) -/
+def heartbeat (s : State) : State × Obs :=
+  match s.client with
+  | none => (s, .noclient)
+  | some ch =>
+    let hb : Msg := { seq := s.seq, kind := .heartbeat, key := 0, val := 0 }
+    if ch.length < s.cfg.capC then
+      ({ s with client := some (ch ++ [hb]), bcast := s.bcast ++ [hb], sent := s.sent ++ [hb] }, .sent s.seq)
+    else (s, .dropped s.seq)
 
 def attach (s : State) : State × Obs :=
   match s.client with
   | some _ => (s, .already)
-  | none => ({ s with client := some [], bcast := [], sent := [], applied := [], dropEpoch := false }, .ok)
+  | none => ({ s with client := some [], bcast := [], sent := [], applied := [], dropped := [] }, .ok)
 
 def deliver (s : State) : State × Obs :=
   match s.client with
@@ -155,11 +180,12 @@ def disconnect (s : State) : State × Obs :=
   match s.client with
   | none => (s, .notconnected)
   | some _ =>
-    ({ s with client := none, fullSynced := false, bcast := [], sent := [], applied := [], dropEpoch := false }, .ok)
+    ({ s with client := none, fullSynced := false, bcast := [], sent := [], applied := [], dropped := [] }, .ok)
 
 inductive Op where
   | add (k v : Nat) | update (k v : Nat) | delete (k : Nat)
   | broadcast | fullSync | attach | deliver | disconnect
+  | streamFull | heartbeat
   deriving Repr, DecidableEq
 
 def step (s : State) : Op → State × Obs
@@ -171,6 +197,8 @@ def step (s : State) : Op → State × Obs
   | .attach => attach s
   | .deliver => deliver s
   | .disconnect => disconnect s
+  | .streamFull => streamFull s
+  | .heartbeat => heartbeat s
 
 def run (s : State) (ops : List Op) : State := ops.foldl (fun st op => (step st op).1) s
 
